@@ -237,18 +237,21 @@ func devicesOf(a *resourceapi.AllocationResult) (devs []string, node string, has
 
 // ProjectClaims is what the session believes about resource claims:
 //
-//	pods[p]:  the pod's own bookkeeping (PodInfo.ResourceClaimInfo): n = number of entries, has = 1 if there is an
+//	pods[p]:  (pods with a claim) the pod's own bookkeeping (PodInfo.ResourceClaimInfo): n = number of entries, has = 1 if there is an
 //	          entry under the pod-level claim name, alloc / dev / node = its allocation (devices, node); and, for
 //	          the ResourceClaim object the pod refers to, the view of the session's DRA manager (what the DRA
 //	          allocator works from): oalloc / odev / onode = allocation, ores = names of the pods it is reserved for
-//	inuse[n]: the devices of node n the DRA manager counts as allocated
+//	inuse[n]: (nodes that publish DRA devices) the devices of node n the DRA manager counts as allocated
 //
-// Pods without a claim (and every pod of a scenario without DRA) get the neutral entry.
+// The record has the same shape in every event of a scenario: pods without a claim and nodes without DRA devices have
+// no entry (both parts are empty in a scenario without DRA); a pod without a claim must not have claim bookkeeping.
 func ProjectClaims(cfg *Cfg, ssn *framework.Session) (M, error) {
 	pods := M{}
 	inuse := M{}
 	for _, nn := range sortedKeys(cfg.Nodes) {
-		inuse[nn] = []string{}
+		if cfg.Nodes[nn].Dra > 0 {
+			inuse[nn] = []string{}
+		}
 	}
 	dra := cfg.hasDRA()
 	var tracker interface {
@@ -276,7 +279,7 @@ func ProjectClaims(cfg *Cfg, ssn *framework.Session) (M, error) {
 			}
 			inuse[pool] = append(l, id.Device.String())
 		}
-		for _, nn := range sortedKeys(cfg.Nodes) {
+		for nn := range inuse {
 			sort.Strings(inuse[nn].([]string))
 		}
 		// every claim object the manager knows belongs to the scenario
@@ -297,7 +300,9 @@ func ProjectClaims(cfg *Cfg, ssn *framework.Session) (M, error) {
 	for _, pn := range sortedKeys(cfg.Pods) {
 		pc := cfg.Pods[pn]
 		e := M{"pcn": pc.Pcn, "n": 0, "has": 0, "alloc": 0, "dev": []string{}, "node": "", "obj": pc.Claim, "oalloc": 0, "odev": []string{}, "onode": "", "ores": []string{}}
-		pods[pn] = e
+		if pc.Claim != "" {
+			pods[pn] = e
+		}
 		job := ssn.ClusterInfo.PodGroupInfos[common_info.PodGroupID(pc.Job)]
 		if job == nil {
 			return nil, fmt.Errorf("job %s missing in session", pc.Job)
